@@ -8,6 +8,8 @@ import Proofs.GrepPlainD
 import Proofs.GrepEmit
 import Proofs.RipGrepJson
 import Proofs.GrepRowEmit
+import Proofs.GrepText
+import Proofs.GrepHelper
 /-!
 C16 — grep output keeps every hit's path, line number and code.
 
@@ -504,5 +506,186 @@ example : ∃ rows, emit { outputType := none, tabWidth := 4, headerAsHunkHeader
   decide
 
 end GrepRowLayout
+
+/-! ## From the input line text to the visible text of the rendered row (classic style; session 4 / T23)
+
+`GrepInput.lineOfInput` (DeltaModel/GrepInput.lean) is the parse dispatch of `handle_grep_line`: the coloured
+regex on a raw line beginning with ESC (code then through `strip_ansi_codes`), otherwise the line without escape
+sequences goes to the JSON reader when it begins with `{` and to the plain regexes in order when not.
+`strip` (= `ansi::strip_ansi_codes`) is a parameter: the theorem holds for every function that leaves ESC-free
+text alone; the JSON text parser stays trusted (a JSON line comes as its value). -/
+
+section FromInputText
+open GrepRow GrepInput
+
+/-- **`grep_line_rendered_faithfully`, classic output style.** For every stream of source lines, each of them
+* a line in the coloured format `fmtColoured p` under the hypotheses of `coloured_round_trip`, or
+* a plain line `fmtPlain p` of one of the four fragments of `plain_round_trip_partial_*`, without ESC and not
+  beginning with `{` (such a line is handed to the JSON reader: `brace_path_not_read` below), or
+* an `rg --json` line whose value `parse_line` answers with a match / context / header line (which values those
+  are: `record_with_extra_members_accepted`, `metadata_records_swallowed`),
+
+shown in the classic style (text lines by default or with `--grep-output-type classic`, JSON lines with it) and
+none of them a function-context header that is rendered as a hunk header: delta reads every line as grep output,
+emission does not panic, and the visible texts of the rendered rows are, one row per source line and in order,
+`[marker] path sep [number sep padding] code` — the path the line names, the separator (the line's own under
+`keep`), its line number in decimal when it has one, and its code with tabs expanded (for a coloured line: the
+code without its escape sequences; for a JSON line: `lines.text` without its line terminator), each once —
+for every tab width, separator symbol, navigate and padding setting. -/
+theorem grep_line_rendered_faithfully (cfg : Grep.Cfg) (rcfg : GrepRow.Cfg) (strip : List Char → List Char)
+    (hstrip : ∀ s : List Char, s.contains esc = false → strip s = s) (srcs : List Src)
+    (hadm : ∀ s, s ∈ srcs → s.Admissible)
+    (hstyle : ∀ s, s ∈ srcs → cfg.outputType.getD s.gtype = .classic)
+    (hhdr : ∀ s, s ∈ srcs → ((s.meaning strip).1 = .contextHeader && cfg.headerAsHunkHeader) = false) :
+    ∃ rows, emit cfg (srcs.map fun s => lineOfInput cfg.tabWidth strip s.input) = .ok rows ∧
+      rowsText rcfg rows = srcs.map fun s =>
+        classicText rcfg cfg.tabWidth (s.meaning strip).1 (s.meaning strip).2.1 (s.meaning strip).2.2.1
+          (RipGrepJson.bytesOfChars (s.meaning strip).2.2.2) :=
+  stream_classic_text cfg rcfg strip hstrip srcs hadm hstyle hhdr
+
+/-- What `classicText` is, written out (no marker, `keep`): `path sep number sep padding code`. -/
+example : classicText { navigate := false, sepSymbol := "keep", out := outputConfig "GitGrep" ["-n"] } 4
+      .context "src/a.rs".toList (some 7) (utf8 "\tlet x") = utf8 "src/a.rs-7-      let x" := by decide
+
+/-- The hypotheses are met by a stream with one line of each kind (a coloured context line, a plain numbered
+match line of fragment A, an `rg --json` match record with members the format does not have). -/
+def exSrcs : List Src :=
+  [.coloured { path := "src/co-7-fig.rs:12: x".toList, kind := .context, digits := some "214".toList,
+               code := "  -a*=* | --archs=*) :7: a.rs-3-".toList },
+   .plain { path := "etc/META-INF/co-7-fig.rs".toList, kind := .match_, digits := some "12".toList,
+            code := "see a.rs:3: and\tb.py-4-x".toList },
+   .json (exRecord [("version", .nat 2)] [("binary_offset", .null)] [("lossy", .bool false)] [("replacement", .null)]) []]
+
+example : ∀ s, s ∈ exSrcs → s.Admissible := by
+  intro s hs
+  simp only [exSrcs, List.mem_cons, List.not_mem_nil, or_false] at hs
+  rcases hs with rfl | rfl | rfl
+  · exact ⟨by decide, by decide, by intro ds h; cases h; decide, by decide, by intro h; cases h⟩
+  · exact ⟨by decide, by decide, by decide⟩
+  · exact ⟨{ gtype := .ripgrep, kind := .match_, path := "src/a.rs".toList, num := some 3,
+             code := "let x = 1;".toList, subs := some [(0, 3)] }, by decide, by decide⟩
+
+/-- Why "not beginning with `{`" is a hypothesis: `{a}.rs:1:x` is a line of fragment A, but `parse_grep_line`
+hands every line beginning with `{` to the JSON reader only — it is not read as grep output and goes through
+unchanged (directories of project templates are named like that: `{{cookiecutter.project_slug}}/setup.py`). -/
+theorem brace_path_not_read :
+    fragNumbered { path := "{a}.rs".toList, kind := .match_, digits := some "1".toList, code := "x".toList } = true ∧
+    (match lineOfInput 4 id (.text "{a}.rs:1:x".toList) with
+     | .other raw => raw == utf8 "{a}.rs:1:x"
+     | .hit _ => false) = true := by decide
+
+end FromInputText
+
+/-! ## The ripgrep output style (session 4 / T23)
+
+`--grep-output-type ripgrep` (the default for `rg --json`): hits are grouped under a path header; each hit row is
+`number separator code`. Both rows are written by `write_line_of_code_with_optional_path_and_line_number`
+(hunk_header.rs); `GrepHelper.helperText` (DeltaModel/GrepHelper.lean) is that helper's text as a function of its
+arguments, and the arguments grep.rs passes at its three call sites are regenerated
+(`Generated/GrepHelperCalls.lean`). Not `--color-only` (known finding C16-color-only-ripgrep-style). -/
+
+section RipgrepStyle
+open GrepRow GrepHelper
+
+/-- What grep.rs hands the helper for a hit row and for a path header (regenerated): the code and its sections,
+no path, the line number when the line has one, the separator of the line's kind, no hunk label — and for the
+header: no code, the path, no number, an empty separator, the hunk label. -/
+theorem ripgrep_helper_arguments :
+    (argOf rowCall "code_fragment", argOf rowCall "include_file_path", argOf rowCall "include_line_number",
+      argOf rowCall "file_path_separator", argOf rowCall "include_hunk_label") =
+      ("code", "no", "ifNumbered", "kindSeparator", "no") ∧
+    (argOf headerCall "code_fragment", argOf headerCall "include_file_path", argOf headerCall "include_line_number",
+      argOf headerCall "file_path_separator", argOf headerCall "include_hunk_label") =
+      ("empty", "yes", "no", "empty", "yes") := by decide
+
+/-- **A ripgrep-style hit row shows number and code.** For every kind, number, sections and hunk label / file style:
+the row's text is the decimal line number followed by the separator of the line's kind (`:` match, `-` context,
+`=` function header) when the line has a number — nothing otherwise —, then the text of the code sections (for a
+hit of `Grep.emit`: the code with tabs expanded, `one_row_per_hit_partial`) followed by one blank when the sections
+do not cover the blank the helper appends; an empty code with a number shows `number separator blank`. Neither the
+path nor a hunk label is written on the row. -/
+theorem ripgrep_row_shows_number_and_code (hc : HCfg) (kind : Kind) (num : Option Nat)
+    (secs : List (Bool × Bytes)) (trail : Bool) :
+    GrepHelper.rowText hc (.code none num kind secs trail) = some
+      ((match num with
+        | some n => digitsOf n ++ RipGrepJson.bytesOfChars kind.sep ++ (if (secsText secs).isEmpty then [space] else [])
+        | none => []) ++
+       (if (secsText secs).isEmpty then [] else secsText secs ++ (if trail then [space] else []))) :=
+  rowText_code hc kind num secs trail
+
+example : GrepHelper.rowText { hunkLabel := utf8 "§", filePlain := false, hhFile := true, hhLineNumber := true }
+    (.code none (some 12) .context [(false, utf8 "    let x")] true) = some (utf8 "12-    let x ") := by decide
+
+/-- The path header of a group: `[label blank] path blank`, for every path that is written at all (a non-empty
+path, or a file style that is not plain). -/
+theorem ripgrep_header_row_text (hc : HCfg) (path : List Char)
+    (hp : (RipGrepJson.bytesOfChars path).isEmpty = false ∨ hc.filePlain = false) :
+    GrepHelper.rowText hc (.header path) = some
+      ((if hc.hunkLabel.isEmpty then [] else hc.hunkLabel ++ [space]) ++ RipGrepJson.bytesOfChars path ++ [space]) :=
+  rowText_header hc path hp
+
+/-- Why the hypothesis: an empty path under a plain file style writes no header row at all. -/
+example : GrepHelper.rowText { hunkLabel := [], filePlain := true, hhFile := true, hhLineNumber := true }
+    (.header []) = none := by decide
+
+/-- **One file header per path group.** For every stream shown in the ripgrep style (hits admissible as in
+`one_row_per_hit_partial`): emission does not panic; the header rows are, in order, exactly the first paths of the
+groups of consecutive hits with one path (`groupHeads`: a hit whose path differs from the previous hit's — or the
+first hit — gives one header, a hit with the same path gives none); and every hit row stands under the header of
+its own path, with its number and code (`attach` reads the rows back with the last header seen). -/
+theorem one_file_header_per_path_group (cfg : Grep.Cfg) (lines : List Line)
+    (hstyle : ∀ h, Line.hit h ∈ lines → cfg.outputType.getD h.gtype = .ripgrep)
+    (hok : ∀ h, Line.hit h ∈ lines → hitOk cfg .ripgrep h = true) :
+    ∃ rows, emit cfg lines = .ok rows ∧
+      headerPaths rows = groupHeads none ((hitsOf lines).map (·.path)) ∧
+      attach rows = (hitsOf lines).map fun h => (some h.path, h.num, expandB cfg.tabWidth h.code) := by
+  obtain ⟨rows, he, ha⟩ := one_row_per_hit_partial cfg .ripgrep lines hstyle hok
+  exact ⟨rows, he, emitFrom_headers cfg lines none rows hstyle (fun h hm => GrepInput.hitOk_kind (hok h hm)) he, ha⟩
+
+/-- `groupHeads` on a stream a.rs a.rs b.rs a.rs: headers a.rs, b.rs, a.rs (a path that comes back is a new group). -/
+example : groupHeads none ["a.rs".toList, "a.rs".toList, "b.rs".toList, "a.rs".toList] =
+    ["a.rs".toList, "b.rs".toList, "a.rs".toList] := by decide
+
+/-- The rows of `exStream` in the ripgrep style, as text. -/
+example : (emit { outputType := some .ripgrep, tabWidth := 4, headerAsHunkHeader := true } exStream).toOption.map
+      (GrepHelper.rowsText { navigate := false, sepSymbol := ":", out := outputConfig "OtherGrep" [] }
+        { hunkLabel := [], filePlain := false, hhFile := true, hhLineNumber := true }) =
+    some [utf8 "a.rs ", utf8 "3:    x", utf8 "4- ", utf8 "--", utf8 "--", utf8 "9-y ", utf8 "", utf8 "b c.rs ", utf8 "1:z"] := by
+  decide
+
+/-- **Whole streams in the ripgrep style.** For every stream of admissible hits shown in the ripgrep style, emission
+does not panic and the hit rows (`codeRows`: the rows that are neither header, blank line, `--` nor a line passed
+through) are, one per hit and in order, rows with the hit's own number and kind whose sections spell its code with
+tabs expanded (`RowsFor`). -/
+theorem ripgrep_stream_rows (cfg : Grep.Cfg) (lines : List Line)
+    (hstyle : ∀ h, Line.hit h ∈ lines → cfg.outputType.getD h.gtype = .ripgrep)
+    (hok : ∀ h, Line.hit h ∈ lines → hitOk cfg .ripgrep h = true) :
+    ∃ rows, emit cfg lines = .ok rows ∧ RowsFor cfg.tabWidth (codeRows rows) (hitsOf lines) := by
+  obtain ⟨rows, he, _⟩ := one_row_per_hit_partial cfg .ripgrep lines hstyle hok
+  exact ⟨rows, he, emitFrom_ripgrep_code cfg lines none rows hstyle hok he⟩
+
+/-- … and the text of such a row (one link of `RowsFor`): the hit's decimal number and the separator of its kind
+when it has a number, its code with tabs expanded, and at most one blank after it — nothing else. -/
+theorem ripgrep_row_text_of_hit (hc : HCfg) (w : Nat) (h : Hit) (r : Row)
+    (hr : ∃ secs trail, r = Row.code none h.num h.kind secs trail ∧ secsText secs = expandB w h.code) :
+    ∃ tail, (tail = [] ∨ tail = [space]) ∧
+      GrepHelper.rowText hc r = some
+        ((match h.num with
+          | some n => digitsOf n ++ RipGrepJson.bytesOfChars h.kind.sep
+          | none => []) ++ expandB w h.code ++ tail) := by
+  obtain ⟨secs, trail, rfl, hs⟩ := hr
+  rw [rowText_code]
+  unfold ripgrepText
+  rw [hs]
+  cases he : (expandB w h.code).isEmpty
+  · cases trail
+    · exact ⟨[], Or.inl rfl, by cases h.num <;> simp⟩
+    · exact ⟨[space], Or.inr rfl, by cases h.num <;> simp⟩
+  · have hnil : expandB w h.code = [] := List.isEmpty_iff.mp he
+    cases hn : h.num
+    · exact ⟨[], Or.inl rfl, by simp [hnil]⟩
+    · exact ⟨[space], Or.inr rfl, by simp [hnil]⟩
+
+end RipgrepStyle
 
 end C16
